@@ -3,7 +3,7 @@
  * handed out twice while live, for any population (across chunk expansions and
  * growth of the chunk list itself).
  *
- * options: objsz=N objnum=N mode=seq|ramp|static depth=N target=N
+ * options: objsz=N objnum=N mode=seq|ramp|static|experiment depth=N target=N
  */
 #include <inttypes.h>
 #include <pthread.h>
@@ -237,9 +237,83 @@ static void run_static(void)
     pthread_join(th, NULL);
 }
 
+/* objects of a statically initialised pool that are live on the calling thread when it runs an experiment (whose
+ * worker threads use and clean up their own instances of the same thread-local pool) stay what they are, and what
+ * the caller allocates afterwards is distinct from them */
+extern void cimba_run_experiment(void *your_experiment_array, uint64_t num_trials, size_t trial_struct_size,
+                                 void (*your_trial_func)(void *your_trial_struct));
+struct xt { int ok; };
+
+static void xt_trial(void *vp)
+{
+    struct xt *t = vp;
+    unsigned char *o[12];
+    t->ok = 1;
+    for (int k = 0; k < 12; k++) {
+        o[k] = cmi_mempool_alloc(&tl_pool);
+        memset(o[k], 0x40 + k, 24);
+    }
+    for (int k = 0; k < 12; k++) {
+        for (int b = 0; b < 24; b++) {
+            t->ok &= o[k][b] == 0x40 + k;
+        }
+        cmi_mempool_free(&tl_pool, o[k]);
+    }
+}
+
+static int xt_trials;
+
+static void *experiment_thread(void *arg)
+{
+    (void)arg;
+    P = &tl_pool;
+    objsz = 24;
+    nlive = 0;
+    nstamp = 0;
+    const int target = (int)vx_opt_int("target", 150);
+    for (int k = 0; k < target && vx_violations_this_exec() == 0; k++) {
+        do_alloc();
+    }
+    struct xt arr[8];
+    memset(arr, 0, sizeof arr);
+    opname = "experiment";
+    cimba_run_experiment(arr, (uint64_t)xt_trials, sizeof arr[0], xt_trial);
+    for (int k = 0; k < xt_trials; k++) {
+        if (arr[k].ok != 1) {
+            FAIL("trial-objects", "trial %d of %d: objects of the worker's own pool instance did not keep their contents", k, xt_trials);
+        }
+    }
+    check_all_intact();
+    for (int k = 0; k < target && vx_violations_this_exec() == 0; k++) {
+        do_alloc();
+        if (k % 7 == 6) {
+            do_free(nlive / 3);
+        }
+    }
+    check_all_intact();
+    state_fp();
+    while (nlive > 0 && vx_violations_this_exec() == 0) {
+        do_free(nlive - 1);
+    }
+    cmi_mempool_cleanup(NULL);
+    return NULL;
+}
+
+static void run_experiment(void)
+{
+    xt_trials = 1 + vx_choose_free(8, "trials");
+    pthread_t th;
+    pthread_create(&th, NULL, experiment_thread, NULL);
+    pthread_join(th, NULL);
+}
+
 static void run_one(void)
 {
     const char *m = vx_opt("mode", "seq");
+    if (!strcmp(m, "experiment")) {
+        run_experiment();
+        return;
+    }
     if (!strcmp(m, "ramp")) {
         run_ramp();
     }
